@@ -213,6 +213,79 @@ pub mod zoo {
     }
 }
 
+/// `malapp`: one-shot requests with a structured answer, a stream, notifications; used by C12.
+pub mod malapp {
+    use crux_core::capability::Operation;
+    use crux_core::macros::effect;
+    use crux_core::render::RenderOperation;
+    use crux_core::Command;
+    use serde::{Deserialize, Serialize};
+
+    #[derive(Serialize, Deserialize, Clone, Debug, PartialEq, Eq)]
+    pub struct AskOp { pub tag: u32, pub text: String }
+    #[derive(Serialize, Deserialize, Clone, Debug, PartialEq, Eq)]
+    pub struct Item { pub name: String, #[serde(with = "serde_bytes")] pub data: Vec<u8>, pub weight: Option<u64> }
+    #[derive(Serialize, Deserialize, Clone, Debug, PartialEq, Eq)]
+    pub enum Answer { Empty, Code(u16), Items { items: Vec<Item>, note: Option<String> }, Pair(u64, bool) }
+    impl Operation for AskOp { type Output = Answer; }
+
+    #[derive(Serialize, Deserialize, Clone, Debug, PartialEq, Eq)]
+    pub struct WatchOp { pub tag: u32 }
+    #[derive(Serialize, Deserialize, Clone, Debug, PartialEq, Eq)]
+    pub struct Tick { pub seq: u64, pub label: String }
+    impl Operation for WatchOp { type Output = Tick; }
+
+    #[derive(Serialize, Deserialize, Clone, Debug, PartialEq, Eq)]
+    pub enum MalEvent {
+        Ask { tag: u32, text: String },
+        Watch { tag: u32 },
+        Note { text: String, #[serde(with = "serde_bytes")] blob: Vec<u8>, nums: Vec<u32>, flag: Option<bool> },
+        Render,
+        #[serde(skip)] Got(u32, Answer),
+        #[serde(skip)] Ticked(u32, Tick),
+    }
+
+    #[derive(Serialize, Deserialize, Clone, Debug, PartialEq, Eq)]
+    pub enum Line {
+        Asked(u32),
+        Watching(u32),
+        Noted { text: String, size: u64, sum: u64, flag: Option<bool> },
+        Got(u32, Answer),
+        Tick(u32, Tick),
+    }
+    #[derive(Default)]
+    pub struct Model { pub lines: Vec<Line> }
+    #[derive(Serialize, Deserialize, Clone, Debug, PartialEq, Eq)]
+    pub struct MalView { pub lines: Vec<Line> }
+
+    #[effect(typegen)]
+    pub enum Effect { Ask(AskOp), Render(RenderOperation), Watch(WatchOp) }
+
+    #[derive(Default)]
+    pub struct App;
+    impl crux_core::App for App {
+        type Event = MalEvent;
+        type Model = Model;
+        type ViewModel = MalView;
+        type Capabilities = ();
+        type Effect = Effect;
+        fn update(&self, event: MalEvent, model: &mut Model, _caps: &()) -> Command<Effect, MalEvent> {
+            match event {
+                MalEvent::Ask { tag, text } => { model.lines.push(Line::Asked(tag)); Command::request_from_shell(AskOp { tag, text }).then_send(move |a| MalEvent::Got(tag, a)) }
+                MalEvent::Watch { tag } => { model.lines.push(Line::Watching(tag)); Command::stream_from_shell(WatchOp { tag }).then_send(move |t| MalEvent::Ticked(tag, t)) }
+                MalEvent::Note { text, blob, nums, flag } => {
+                    model.lines.push(Line::Noted { text, size: blob.len() as u64, sum: nums.iter().map(|x| *x as u64).sum(), flag });
+                    Command::done()
+                }
+                MalEvent::Render => crux_core::render::render(),
+                MalEvent::Got(tag, a) => { model.lines.push(Line::Got(tag, a)); crux_core::render::render() }
+                MalEvent::Ticked(tag, t) => { model.lines.push(Line::Tick(tag, t)); Command::done() }
+            }
+        }
+        fn view(&self, model: &Model) -> MalView { MalView { lines: model.lines.clone() } }
+    }
+}
+
 use crux_core::typegen::{State, TypeGen};
 use serde_reflection::Registry;
 
@@ -248,6 +321,15 @@ pub fn registries() -> Vec<(&'static str, Result<Registry, String>)> {
             gen.register_app::<zoo::App>().map_err(|e| e.to_string())
         })().and_then(|_| take_registry(gen));
         out.push(("zoo", r));
+    }
+    {
+        let mut gen = TypeGen::new();
+        let r = (|| -> Result<(), String> {
+            gen.register_type::<malapp::Answer>().map_err(|e| e.to_string())?;
+            gen.register_type::<malapp::Line>().map_err(|e| e.to_string())?;
+            gen.register_app::<malapp::App>().map_err(|e| e.to_string())
+        })().and_then(|_| take_registry(gen));
+        out.push(("malapp", r));
     }
     {
         use crux_core::capability::Operation;
